@@ -46,6 +46,7 @@ def run(ctx):
         n = r.randint(1, nmax)
         try:
             fam, rows = families.build(r, name, n, floats=r.random() < 0.25)
+            n = len(rows)
         except Exception as e:
             ctx.issue("diff", f"harness:build:{name}", repr(e))
             continue
